@@ -126,7 +126,9 @@ NExpect(s, p, h, r, x, t, M) ==
                             q  == VidyaStep(n, r, x, aq)
                         IN  [st |-> q.st, exp |-> [kind |-> "vidya", v |-> q.out,
                                                    tol |-> FxAdd(Allow(8 * n + 8, 8, t, M), q.st.eacc),
-                                                   tot |-> q.tot, atot |-> aq]]
+                                                   tot |-> q.tot, atot |-> aq,
+                                                   \* the factor lies in [0, 1] whatever the sums: the output stays between x and y_prev
+                                                   lo |-> FxMin(x, r.y), hi |-> FxMax(x, r.y)]]
       [] s = "TR"   -> LET q == TRStep(r, x) IN [st |-> q.st, exp |-> Abs(q.out, Allow(1, 0, t, FxMax(CMag(x), FxAbs(r))))]
       [] s = "HeikinAshi" -> LET q == HAStep(r, x)
                              IN  [st |-> q.st, exp |-> [kind |-> "candle", c |-> q.out, tol |-> Allow(8, 0, t, M)]]
